@@ -29,6 +29,7 @@ package corerad
 //@   at send ipC(v): assert S1 [C05]: v == allNodesAddr && ghost.requests == ghost.waits ; ghost.requests = ghost.requests + 1
 //@   at call time.After(w): assert W1 [C05]: w <= ceilSec(max) && (floorSec(min) <= w || (ghost.waits < 3 && w == secs(16))) && w > 0 && (ghost.waits < 3 ==> w <= secs(16)) ; assert W2 [C05]: ghost.requests == ghost.waits + 1 ; ghost.waits = ghost.waits + 1
 //@   ensures X1 [C05]: isDone(ctx)
+//@   opt cancelable [C10]
 //@   opt safety [C05]
 
 // ---------------------------------------------------------------------------
@@ -190,3 +191,31 @@ package corerad
 //@   at call onMessage(msg): assert D1 [C09]: msg.Message == ghost.lastM && msg.Message != nil && ghost.lastHop == 255 ; assert Z1 [C18]: msg.Host == addrWithZone(ghost.lastHost, "")
 //@   loop 1 invariant L0 [C10]: l != nil && listenerOK(l) && ctx != nil && egNeed(ghost.egNeeds, addr(eg)) == ctx.val && cancelOf(cancel) == ctx.val
 //@   opt safety [C09,C10]
+
+// ---------------------------------------------------------------------------
+// advertise.go: goroutine bodies must stay cancellable (C10: no half-alive task)
+
+// Listener callback: forwards each destination handle() returns to the scheduler.
+//@ func (*Advertiser).advertise$3$1
+//@   ghost local sends Int
+//@   opt capture CAP
+//@   requires CAP [C10]: ctx != nil
+//@   opt cancelable [C10]
+//@   assigns everything
+//@   at send ipC(v): ghost.sends = ghost.sends + 1
+//@   ensures S1 [C07]: ghost.sends <= 1
+//@   opt safety [C10]
+
+// Scheduled transmit workers.
+//@ func (*Advertiser).schedule$1
+//@   opt capture CAP
+//@   requires CAP [C10]: ctx != nil
+//@   opt cancelable [C10]
+//@   assigns everything
+//@   opt safety [C10]
+//@ func (*Advertiser).schedule$2
+//@   opt capture CAP
+//@   requires CAP [C10]: ctx != nil
+//@   opt cancelable [C10]
+//@   assigns everything
+//@   opt safety [C10]
